@@ -1951,3 +1951,12 @@ m("C15", "stable-name-for-closures", ZT,
 m("C14", "retire-walks-live-dict", "template.py",
   "            attr for attr in list(self.__dict__)\n",
   "            attr for attr in self.__dict__\n")
+m("C10", "onerror-settings-not-restored", C,
+  '''        scope_restore += template(
+            "(__i18n_domain, __i18n_context, target_language) = i18n",
+            i18n=i18n
+        )
+''', "")
+m("C10", "onerror-settings-snapshot-shared", C,
+  '''        i18n = identifier("__i18n", id(node))''',
+  '''        i18n = identifier("__i18n", node.name)''')
